@@ -23,24 +23,24 @@ PROPS = {
              "unterminated ${ and %get(, trailing backslash), %dirscan over a simulated directory whose listing is modelled exactly (one run in ten makes the listing 20474..20486 or 41000 bytes long with 100..255-character names), "
              "plus values padded to 20300..20470 characters so replacements reach the 20 kB limit; HOME set/unset/empty, 7..12 built-ins; "
              "the argument is an exact CONFIG_BUFF-byte simulated block; oracle = reference expander written from the stated rules (value checked unless a don't-care construct occurs), NUL-termination and length, "
-             "and a second execution of the whole plan under different heap and stack garbage that must give byte-identical results; Since rounds 10-12: the %name ) spelling and variable-deleting spellings (value don't-care), fdopen()/fchmod() refusals, built-ins registered between expansions. Since round 16: variable names that begin with or hold a byte above 0x7f next to plain ones. distinct = distinct trace hash; non-trivial = >= 3 ops",
-             probes=["value_checked", "value_dont_care", "dollar_mid_line", "backslash_at_end", "unterminated_brace", "nested_call_depth3", "result_hits_limit", "tilde_inside_quotes", "big_directory", "dirscan_listing_modelled", "dirscan_listing_over_limit", "cut_result_is_a_prefix",
+             "and a second execution of the whole plan under different heap and stack garbage that must give byte-identical results; Since rounds 10-12: the %name ) spelling and variable-deleting spellings (value don't-care), fdopen()/fchmod() refusals, built-ins registered between expansions. Since round 16: variable names that begin with or hold a byte above 0x7f next to plain ones. Since round 17: directory entries that stat() cannot follow; the read-back of a command's output fails at once or half way (value don't-care, garbage-independence checked). distinct = distinct trace hash; non-trivial = >= 3 ops",
+             probes=["stat_failed_for_a_listed_name", "temporary_file_read_back_failed", "value_checked", "value_dont_care", "dollar_mid_line", "backslash_at_end", "unterminated_brace", "nested_call_depth3", "result_hits_limit", "tilde_inside_quotes", "big_directory", "dirscan_listing_modelled", "dirscan_listing_over_limit", "cut_result_is_a_prefix",
                      "random_picked_another_word", "dirscan_no_directory"]),
     "C11": P(["asan", "asanz"], 30, 900,
              "plans = 1..4 init/register/parse/free cycles; files are arbitrary byte strings or metacharacter-rich config text (NULs, lines of 20470..20482 and 41000 bytes, missing final newline, "
              "300 unmatched begin lines, empty file, bad magic, %include/%put/%get/%random/%dirscan (one run in ten over a directory whose listing is 20474..20486 or 41000 bytes long)/$VAR/~ and, in a quarter of the runs, %exec/backquote/%preproc), 0..200 contexts, 7..13 built-ins, "
              "spifconf_find_file with file/dir/pathlist strings up to 40000 bytes, spiftool_temp_file under a libc that creates with 0600 or 0666&~umask, direct expansions up to the 20 kB limit; "
              "oracle = ASan/allocator verdict, step and CPU budgets, spawn census, temp-file mode/uniqueness census, allocator ledger at spifconf_free_subsystem, equal handler traces for repeated cycles; "
-             "Since rounds 10-12: wrong-arity built-ins, the %name ) spelling, directives without argument, variables deleted from the middle of the list, fdopen()/fchmod() refusals per cycle, registrations between parses, more than 255 built-ins/contexts (must be refused). distinct = distinct trace hash; non-trivial = >= 3 ops",
-             probes=["lifecycle_cycle_completed", "repeated_cycle_compared", "builtin_table_grew", "empty_file", "nul_in_file", "line_over_limit", "line_near_limit", "contexts_crossed_160",
+             "Since rounds 10-12: wrong-arity built-ins, the %name ) spelling, directives without argument, variables deleted from the middle of the list, fdopen()/fchmod() refusals per cycle, registrations between parses, more than 255 built-ins/contexts (must be refused). Since round 17: directory entries that stat() cannot follow; a temporary file whose read-back fails at once or half way. distinct = distinct trace hash; non-trivial = >= 3 ops",
+             probes=["stat_failed_for_a_listed_name", "temporary_file_read_back_failed", "lifecycle_cycle_completed", "repeated_cycle_compared", "builtin_table_grew", "empty_file", "nul_in_file", "line_over_limit", "line_near_limit", "contexts_crossed_160",
                      "spawn_by_directive", "vars_defined", "second_cycle_uses_vars", "find_file_found", "path_component_over_limits", "temp_file_created", "big_directory"]),
     "C09": P(["plain", "plainz"], 30, 900,
              "plans = a simulated file tree (root + include files, include chains up to 200 deep, files without magic, missing files, empty files, directories and files that open but cannot be read) over the line grammar "
              "comment | blank | begin NAME | end [junk] | %include F | text, nesting depth biased to 9..11, 19..21, 39..41, 79..81, 159..161, 200, 255, 0..200 registered contexts bound to 8 recording handlers, "
              "optional override of the null context, fopen failures and seeded read chunking from the parse op's fault script, parse with and without a search path; "
              "oracle = reference dispatcher producing the exact handler-call trace incl. state tokens, stack balance and index<capacity through read-only accessors; "
-             "Since rounds 10-12: the program may rename itself (libast_set_program_name) and the environment may change between two parses; up to 255 registered contexts with a preference for the last one in begin lines. distinct = distinct trace hash; non-trivial = >= 3 ops",
-             probes=["environment_changed_between_parses", "program_renamed", "line_delivered_with_open_expansion", "depth_crossed_20", "depth_crossed_40", "depth_crossed_80", "depth_crossed_160", "include_depth_crossed_10", "include_depth_crossed_20", "include_depth_crossed_40",
+             "Since rounds 10-12: the program may rename itself (libast_set_program_name) and the environment may change between two parses; up to 255 registered contexts with a preference for the last one in begin lines. Since round 17: a read of a config stream may fail once with EINTR (fault ETRANSIENT) and work again; accepted readings: the file ends at the failed read, or nothing is lost. distinct = distinct trace hash; non-trivial = >= 3 ops",
+             probes=["config_read_failed_once_inside_the_file", "file_taken_to_end_at_the_failed_read", "environment_changed_between_parses", "program_renamed", "line_delivered_with_open_expansion", "depth_crossed_20", "depth_crossed_40", "depth_crossed_80", "depth_crossed_160", "include_depth_crossed_10", "include_depth_crossed_20", "include_depth_crossed_40",
                      "include_depth_crossed_80", "include_depth_crossed_160", "unknown_context", "surplus_end", "eof_without_newline", "include_open_failed", "contexts_crossed_20",
                      "contexts_crossed_160", "unbalanced_input", "file_opened_but_unreadable", "empty_file",
                      "delivered_value_was_expanded", "root_found_through_search_path"]),
@@ -102,15 +102,15 @@ PROPS = {
              "plans = seeded histories (4..40 ops, pool of 4 mbuff objects, direct functions or class-table macros) from a random constructor "
              "(empty, ptr, buff, FILE* seekable/streaming at zero/non-zero position with seeded chunking, descriptor regular-file/streaming with short reads, EINTR, EIO), "
              "all 256 byte values incl. NUL, sizes 0..13000 around the 4096-byte chunk; every object compared with an ideal byte sequence after every step; "
-             "Since rounds 10-12: FILE* sources may be stdio streams over a simulated descriptor (pipe or regular file) of which 0..4097 bytes have already been read; positions and counts reach INT_MAX, 2^32, LONG_MAX and LONG_MAX-len and their negatives. Since round 16: formatted results of power-of-two lengths 16..8192 and one or two off. distinct = distinct trace hash; non-trivial = >= 3 ops",
-             probes=["fp_over_descriptor", "fp_over_descriptor_partly_read", "self_as_argument", "argument_related_to_object", "null_pointer_with_a_length", "source_read_error",
+             "Since rounds 10-12: FILE* sources may be stdio streams over a simulated descriptor (pipe or regular file) of which 0..4097 bytes have already been read; positions and counts reach INT_MAX, 2^32, LONG_MAX and LONG_MAX-len and their negatives. Since round 16: formatted results of power-of-two lengths 16..8192 and one or two off. Since round 17: vsnprintf() may fail at the first or second call of a sprintf. distinct = distinct trace hash; non-trivial = >= 3 ops",
+             probes=["sprintf_refused_after_formatter_failure", "fp_over_descriptor", "fp_over_descriptor_partly_read", "self_as_argument", "argument_related_to_object", "null_pointer_with_a_length", "source_read_error",
                      "append_on_empty", "fp_seekable", "fp_streaming", "fp_seekable_nonzero_pos", "fd_regular_file", "fd_streaming", "fd_multi_chunk",
                      "stream_exactly_4096", "refused_op", "absent_byte_search", "cmp_different_lengths", "trim_all_whitespace", "done"]),
     "C01": P(["asan", "asanz"], 30, 900,
              "plans = seeded histories (4..40 ops, pool of 4 objects, str or ustr, direct functions or class-table macros) starting from a random constructor "
              "(empty, ptr, buff, num, FILE* with seeded chunking, descriptor with short reads/EINTR/EAGAIN/EIO), texts from empty to 16 KB around the 4096-byte chunk; "
-             "every object is compared with an ideal character sequence after every step; Since rounds 10-12: FILE* sources may be stdio streams over a simulated descriptor (fileno works, stdio reads ahead); positions and counts reach INT_MAX, 2^32, LONG_MAX and LONG_MAX-len and their negatives. Since round 16: a stream read may fail once (EINTR) and work again, with further constructions from the same stream judged exactly; formatted results of power-of-two lengths 16..8192 and one or two off. distinct = distinct trace hash (includes allocator digest); non-trivial = >= 3 ops",
-             probes=["fp_read_failed_once", "fp_constructed_after_a_read_that_failed_once", "fp_over_descriptor", "self_as_argument", "argument_related_to_object", "counted_buffer_without_terminator", "fp_read_error",
+             "every object is compared with an ideal character sequence after every step; Since rounds 10-12: FILE* sources may be stdio streams over a simulated descriptor (fileno works, stdio reads ahead); positions and counts reach INT_MAX, 2^32, LONG_MAX and LONG_MAX-len and their negatives. Since round 16: a stream read may fail once (EINTR) and work again, with further constructions from the same stream judged exactly; formatted results of power-of-two lengths 16..8192 and one or two off. Since round 17: vsnprintf() may fail at the first or second call of a sprintf (-1/ENOMEM after partial output). distinct = distinct trace hash (includes allocator digest); non-trivial = >= 3 ops",
+             probes=["sprintf_refused_after_formatter_failure", "fp_read_failed_once", "fp_constructed_after_a_read_that_failed_once", "fp_over_descriptor", "self_as_argument", "argument_related_to_object", "counted_buffer_without_terminator", "fp_read_error",
                      "append_on_empty", "fp_line_crosses_4096", "fd_multi_chunk", "refused_op", "done", "query_not_found", "trim_all_whitespace",
                      "mutator_on_empty_state", "dup_of_empty_str"]),
     "C19": P(["plain", "plainz"], 30, 900,
